@@ -417,7 +417,6 @@ class ConcurrentExecutor(ABC, Generic[CallableType, ResultType]):
             config=ChildConfig(
                 serdes=self.item_serdes or self.serdes,
                 sub_type=self.sub_type_iteration,
-                summary_generator=self.summary_generator,
             ),
         )
         child_context.state.track_replay(operation_id=operation_id)
